@@ -2,21 +2,52 @@
 Driver/C13 — runs the executable models of the version-service client (Model/Fallback,
 Model/TcpRead) on the protocol lines of harness/src/bin/c13.rs.
 
-The table `outcome` below is the model's reading of the mock servers' behaviours: which
-`ProtocolError` class (or document) each behaviour produces in `TactClient::query` /
-`RibbitClient::query` — `reqwest`, `mail_parser` and the BPSV parser are outside the model, this
-table is their stated law and is exercised against the real libraries by every run.
+Behaviours of the mock servers are turned into what the endpoint DELIVERS (Model/VersionWire):
+the very bytes the mock serves (documents, MIME wrapping with its SHA-256 checksum, an HTML page,
+cut documents, raw bodies given in hex on the line) or a transport failure. Whether those bytes
+are a well-formed answer is decided by the parser model (C15's Model/Bpsv, Model/RibbitFmt), not
+by a table. What remains a table is `reqwestFlags` / `TcpWire.fail`: which `reqwest::Error`
+predicates (and which `ProtocolError` of the TCP client) a refused, dropped, stalled connection
+produces — the stated law of `reqwest`/`tokio`, exercised against the real libraries by every run
+(`httperr` lines probe each class on its own).
+
+`dl` lines run Model/CdnDownload.download on the same per-client cache model. Answers and CDN
+objects live in two `CState`s here because their contents have different types; their keys are
+disjoint (`cdn_keys_disjoint_from_answers`), so this is the one shared `ProtocolCache`.
 -/
 import Driver.Common
 import Cascette.Model.Fallback
 import Cascette.Model.TcpRead
+import Cascette.Model.VersionWire
+import Cascette.Model.CdnDownload
+import Cascette.Spec.Sha256Fips
 open Cascette Drv
 open Cascette.Model.Fallback
+open Cascette.Model.VersionWire
+open Cascette.Model.Bpsv (Str)
 
-abbrev Doc := Nat × Nat   -- (sequence number, rows)
+abbrev Doc := Model.Bpsv.Doc
+
+def bytesOfNats (l : List Nat) : ByteArray := ByteArray.mk (l.map (·.toUInt8)).toArray
+
+/-- bytes → text, `none` when the bytes are not UTF-8. -/
+def strOfBytes (bs : List Nat) : Option Str := (String.fromUTF8? (bytesOfNats bs)).map (·.toList)
+
+/-- lower-case hex SHA-256 of the UTF-8 bytes. -/
+def H (s : Str) : Str := Spec.Sha256Fips.hexDigest (String.ofList s).toUTF8
 
 inductive Beh where
   | doc (id : Nat) | mime (id : Nat) | bad | status (code : Nat) | close | mid | trunc | stall | refuse
+  | raw (code : Nat) (body : List Nat)
+
+/-- the documents of harness/src/bin/c13.rs (`bpsv_doc`, `bpsv_doc_trunc`, `bpsv_doc_midrow`,
+`mime_doc`, the HTML page, the body of a status answer). -/
+def docHead (id : Nat) : String := s!"Region!STRING:0|BuildId!DEC:4|Tag!STRING:0\n## seqn = {id}\n"
+def bpsvDoc (id : Nat) : Str := (docHead id ++ s!"us|{id}|a\neu|{id}|b\n").toList
+def bpsvDocTrunc (id : Nat) : Str := (docHead id ++ s!"us|{id}|a\n").toList
+def bpsvDocMid (id : Nat) : Str := (docHead id ++ s!"us|{id}").toList
+def mimeDoc (id : Nat) : Str := Model.Ribbit.wrapInMime H (bpsvDoc id)
+def htmlPage : Str := "<html>this is not a BPSV table</html>\n".toList
 
 def parseBeh (s : String) : Option Beh :=
   match s with
@@ -29,6 +60,17 @@ def parseBeh (s : String) : Option Beh :=
   | _ =>
     if s.startsWith "doc:" then (s.drop 4).toString.toNat?.map .doc
     else if s.startsWith "mime:" then (s.drop 5).toString.toNat?.map .mime
+    else if s.startsWith "r" then
+      match (s.drop 1).toString.splitOn ":" with
+      | [c, h, tag] =>
+        let tagOk := tag == "m" ||
+          (tag.startsWith "g" && match (tag.drop 1).toString.splitOn "." with
+            | [a, b] => a.toNat?.isSome && b.toNat?.isSome
+            | _ => false)
+        match c.toNat?, parseHexNat h with
+        | some c, some b => if 200 ≤ c ∧ c ≤ 599 ∧ tagOk then some (.raw c b) else none
+        | _, _ => none
+      | _ => none
     else if s.startsWith "s" then
       let r := (s.drop 1).toString
       let num := if r.endsWith "ra" then (r.dropEnd 2).toString else r
@@ -37,24 +79,45 @@ def parseBeh (s : String) : Option Beh :=
       | none => none
     else none
 
-/-- outcome of contacting an HTTP (TACT) endpoint that behaves as `b`. -/
-def httpOutcome : Beh → Except Err Doc
-  | .doc id => tactClassify 200 (some (id, 2))
-  | .mime _ => tactClassify 200 (none : Option Doc)     -- a MIME body is not a BPSV table
-  | .bad => tactClassify 200 (none : Option Doc)
-  | .status c => tactClassify c (none : Option Doc)     -- body of the mock is never a table
-  | .close | .mid | .trunc => .error .httpDropped
-  | .stall => .error .httpTimeout
-  | .refuse => .error .httpConnect
+/-- the `reqwest::Error` predicates (timeout, connect, request, body, decode) observed for a
+connection that is … -/
+def flagsRefused : HttpFlags := ⟨false, true, true, false, false⟩
+def flagsClosedBeforeResponse : HttpFlags := ⟨false, false, true, false, false⟩
+def flagsClosedInBody : HttpFlags := ⟨false, false, false, false, true⟩
+def flagsStalledBeforeResponse : HttpFlags := ⟨true, false, true, false, false⟩
+def flagsStalledInBody : HttpFlags := ⟨true, false, false, false, true⟩
+def flagsNone : HttpFlags := ⟨false, false, false, false, false⟩
 
-/-- outcome of contacting the Ribbit TCP endpoint that behaves as `b`. -/
-def tcpOutcome : Beh → Except Err Doc
-  | .doc id => .ok (id, 2)
-  | .mime id => .ok (id, 2)
-  | .bad | .status _ | .close | .mid => .error .parse
-  | .trunc => .ok (7, 1)                                -- cut at a row boundary: parses
-  | .stall => .error .timeout
-  | .refuse => .error .network
+/-- what an HTTP (TACT) endpoint that behaves as `b` delivers. -/
+def httpWire : Beh → HttpWire
+  | .doc id => .resp 200 (some (bpsvDoc id))
+  | .mime id => .resp 200 (some (mimeDoc id))
+  | .bad => .resp 200 (some htmlPage)
+  | .status c => .resp c (some "status\n".toList)
+  | .raw c b => .resp c (strOfBytes b)
+  | .close => .fail flagsClosedBeforeResponse
+  | .mid | .trunc => .fail flagsClosedInBody
+  | .stall => .fail flagsStalledBeforeResponse
+  | .refuse => .fail flagsRefused
+
+/-- what the Ribbit TCP endpoint that behaves as `b` delivers (bytes that are not UTF-8 are
+rejected by `from_utf8` / the MIME layer: the model covers UTF-8 only, the driver answers the
+parse error). -/
+def tcpWire : Beh → Option TcpWire
+  | .doc id => some (.bytes (bpsvDoc id))
+  | .mime id => some (.bytes (mimeDoc id))
+  | .bad | .status _ => some (.bytes htmlPage)
+  | .raw _ b => (strOfBytes b).map .bytes
+  | .close => some (.bytes [])
+  | .mid => some (.bytes (bpsvDocMid 7))
+  | .trunc => some (.bytes (bpsvDocTrunc 7))
+  | .stall => some (.fail true)
+  | .refuse => some (.fail false)
+
+def tcpOutcome (b : Beh) : Except Err Doc :=
+  match tcpWire b with
+  | some w => tcpAnswer H w
+  | none => .error .parse
 
 def errName : Err → String
   | .network => "network" | .httpTimeout => "http-timeout" | .httpConnect => "http-connect"
@@ -78,6 +141,85 @@ def parseErr : List String → Option Err
   | ["utf8"] => some .utf8 | ["wasm"] => some .unsupportedOnWasm
   | _ => none
 
+
+/-! ### CDN download lines -/
+
+def parseCt : String → Option Model.CdnDownload.Ct
+  | "config" => some .config | "data" => some .data | "patch" => some .patch | _ => none
+
+def cdnPathOk (p : String) : Bool :=
+  !p.isEmpty && p.length ≤ 64 && p.toList.all (fun c => c.isLower || c.isDigit || c == '/') &&
+    !p.startsWith "/" && (p.splitOn "//").length == 1
+
+/-- injective coding of a byte string as the natural number that identifies a body in the model. -/
+def encBytes (l : List Nat) : Nat := l.foldl (fun a b => a * 256 + b) 1
+partial def decBytesAux (n : Nat) (acc : List Nat) : List Nat :=
+  if n ≤ 1 then acc else decBytesAux (n / 256) (n % 256 :: acc)
+def decBytes (n : Nat) : List Nat := decBytesAux n []
+
+def junkBytes : List Nat := [0xff, 0xfe] ++ " junk without a schema line\n".toList.map Char.toNat
+
+inductive CdnStep where
+  | resp (code : Nat) (body : List Nat) | close | mid | stall | refuse
+
+def parseStep (t : String) : Option CdnStep :=
+  match t with
+  | "close" => some .close
+  | "stall" => some .stall
+  | "refuse" => some .refuse
+  | _ =>
+    if t.startsWith "mid:" then
+      (parseHexNat (t.drop 4).toString).bind fun b => if b.length < 2 then none else some .mid
+    else if t.startsWith "s" then
+      match (t.drop 1).toString.splitOn ":" with
+      | [c, h] =>
+        match c.toNat?, parseHexNat h with
+        | some c, some b => if 200 ≤ c ∧ c ≤ 599 then some (.resp c b) else none
+        | _, _ => none
+      | _ => none
+    else none
+
+def parseScript (s : String) : Option (List CdnStep) :=
+  match (s.splitOn ",").mapM parseStep with
+  | some v =>
+    let hasRefuse := v.any fun | .refuse => true | _ => false
+    if v.isEmpty || v.length > 6 || (hasRefuse && v.length != 1) then none else some v
+  | none => none
+
+def CdnStep.flags : CdnStep → HttpFlags
+  | .close => flagsClosedBeforeResponse
+  | .mid => flagsClosedInBody
+  | .stall => flagsStalledBeforeResponse
+  | .refuse => flagsRefused
+  | .resp _ _ => flagsNone
+
+/-- what one request of `download_with_retry` produces on this step. -/
+def CdnStep.outcome : CdnStep → Model.Retry.Outcome
+  | .resp c b => Model.Retry.classifyStatus c none (encBytes b)
+  | s => .err (.http s.flags.shouldRetry)
+
+def retryErrName (last : CdnStep) : Model.Retry.Err → String
+  | .network _ => "network"
+  | .http _ => errName last.flags.toErr
+  | .parse _ => "parse" | .cache _ => "cache" | .allHostsFailed => "all-hosts-failed"
+  | .rateLimited h => if h.isSome then "ratelimited:hint" else "ratelimited"
+  | .serviceUnavailable => "unavailable"
+  | .httpStatus c => s!"status:{c}" | .serverError c => s!"server:{c}"
+  | .invalidKey => "invalid-key" | .invalidEndpoint _ => "invalid-endpoint" | .rangeNotSupported => "range"
+  | .timeout => "timeout" | .other _ => "other" | .utf8 => "utf8" | .unsupportedOnWasm _ => "wasm"
+
+/-- `httperr`: what one request of the real `TactClient` meets, by behaviour of the peer. -/
+def httpErrWire : String → Option HttpWire
+  | "refuse" => some (.fail flagsRefused)
+  | "close" | "midhead" | "garbage" => some (.fail flagsClosedBeforeResponse)
+  | "mid" | "badchunk" | "badgzip" => some (.fail flagsClosedInBody)
+  | "stallhead" => some (.fail flagsStalledBeforeResponse)
+  | "stallbody" => some (.fail flagsStalledInBody)
+  | "redirloop" | "badurl" => some (.fail flagsNone)
+  | "redirnoloc" => some (.resp 302 (some []))
+  | "ok" => some (.resp 200 (some (bpsvDoc 9)))
+  | _ => none
+
 structure St where
   active : Bool
   cfg : Config
@@ -85,8 +227,9 @@ structure St where
   ttls : Ttls
   clients : Nat
   cache : CState (List Nat) Doc
+  objs : CState (List Nat) Nat
 
-def St.init : St := ⟨false, ⟨true, true⟩, 0, ⟨0, 0, 0⟩, 0, CState.empty true⟩
+def St.init : St := ⟨false, ⟨true, true⟩, 0, ⟨0, 0, 0⟩, 0, CState.empty true, CState.empty true⟩
 
 def kv (s : String) : Option (String × String) :=
   match s.splitOn "=" with
@@ -107,10 +250,11 @@ def parseBegin (toks : List String) : Option St := do
   if down > 7 then none
   let ttl ← get "ttl"
   match (ttl.splitOn ",").mapM (·.toNat?) with
-  | some [a, b, c] => some ⟨true, ⟨https, http⟩, down, ⟨a, b, c⟩, 1, CState.empty disk⟩
+  | some [a, b, c] => some ⟨true, ⟨https, http⟩, down, ⟨a, b, c⟩, 1, CState.empty disk, CState.empty disk⟩
   | _ => none
 
-def docName (d : Doc) : String := s!"{d.1}:{d.2}"
+def docName (d : Doc) : String :=
+  (match d.seqn with | some n => toString n | none => "none") ++ s!":{d.rows.length}"
 
 def trName : Tr → String
   | .https => "https" | .http => "http" | .tcp => "tcp"
@@ -141,8 +285,8 @@ def handle (st : St) (toks : List String) : St × String :=
       let bq := if isDown st.down .http then Beh.refuse else bq
       let bt := if isDown st.down .tcp then Beh.refuse else bt
       let o : Tr → Except Err Doc := fun
-        | .https => httpOutcome bh
-        | .http => httpOutcome bq
+        | .https => httpAnswer (httpWire bh)
+        | .http => httpAnswer (httpWire bq)
         | .tcp => tcpOutcome bt
       let visible : Tr → Bool := fun
         | .https => match bh with | .refuse => false | _ => true
@@ -164,6 +308,54 @@ def handle (st : St) (toks : List String) : St × String :=
         | .ok (some (.doc d)) => "hit:" ++ docName d
       ({ st with cache := c2 }, s!"trace={traceS} res={resS} cache={cacheS}")
     | _, _, _, _, _ => (st, "bad-op")
+  | ["corruptdl", path, ct, keyhex] =>
+    match parseCt ct, parseHexNat keyhex with
+    | some ct, some key =>
+      if st.active && st.objs.disk && cdnPathOk path && 2 ≤ key.length && key.length ≤ 32 then
+        let (c, done) := corrupt st.objs (Model.CdnDownload.cacheKey (path.toList.map Char.toNat) ct key)
+        ({ st with objs := c }, if done then "ok" else "nofile")
+      else (st, "bad-op")
+    | _, _ => (st, "bad-op")
+  | ["dl", ci, t, path, ct, keyhex, script] =>
+    match ci.toNat?, t.toNat?, parseCt ct, parseHexNat keyhex, parseScript script with
+    | some ci, some t, some ct, some key, some steps =>
+      if !st.active || ci ≥ st.clients || !cdnPathOk path || key.length > 32 then (st, "bad-op") else
+      let pathB := path.toList.map Char.toNat
+      let ob := Model.CdnDownload.classifyObj ⟨st.ttls.ribbit, st.ttls.cdn, st.ttls.config⟩ pathB ct key
+      -- the server repeats its last step: 6 outcomes are more than the 4 requests a call can send
+      let steps6 := steps ++ List.replicate (6 - steps.length) (steps.getLast?.getD .close)
+      let outs := steps6.map CdnStep.outcome
+      let (c1, calls, r) := Model.CdnDownload.download (Model.Retry.Arith.fixed fun b => some (2 * b))
+        (fun _ _ => 0) (encBytes junkBytes) st.objs ci t t ob outs
+      let refused := match steps with | [.refuse] => true | _ => false
+      let reqs := if refused then 0 else calls
+      let url := if reqs = 0 then "-" else
+        String.ofList ((Model.CdnDownload.urlPath pathB ct key).map Char.ofNat)
+      let resS := match r with
+        | .ok v => "ok:" ++ hexOfNats (decBytes v)
+        | .err e => "err:" ++ retryErrName (steps6.getD (calls - 1) .close) e
+        | .panic => "panic"
+        | .starved => "starved"
+      let (c2, cacheS) :=
+        if !ob.keyOk then (c1, "-") else
+        let (c2, g) := cacheGet c1 ci ob.key t
+        (c2, match g with
+          | .error _ => "err"
+          | .ok none => "miss"
+          | .ok (some .junk) => "hit:" ++ hexOfNats junkBytes
+          | .ok (some (.doc v)) => "hit:" ++ hexOfNats (decBytes v))
+      ({ st with objs := c2 }, s!"reqs={reqs} url={url} res={resS} cache={cacheS}")
+    | _, _, _, _, _ => (st, "bad-op")
+  | ["httperr", b] =>
+    match httpErrWire b with
+    | none => (st, "bad-op")
+    | some w =>
+      match w, httpAnswer w with
+      | _, .ok d => (st, "ok:" ++ docName d)
+      | .fail f, .error e =>
+        let bit (x : Bool) : String := if x then "1" else "0"
+        (st, s!"http t={bit f.timeout} c={bit f.connect} r={bit f.request} b={bit f.body} d={bit f.decode} class={errName e} retry={shouldRetry e}")
+      | _, .error e => (st, s!"err:{errName e} retry={shouldRetry e}")
   | "retry" :: cls =>
     match parseErr cls with
     | some e => (st, toString (shouldRetry e))
